@@ -308,6 +308,27 @@ def Faithful (final : String → Load α) (obs : List (Obs α)) : Prop :=
   ∀ f, isDot f = false →
     lastObs f obs = some (final f) ∨ (lastObs f obs = none ∧ ∀ u, final f ≠ .unit u)
 
+/-! ## inotify queue overflow (`IN_Q_OVERFLOW`) and the re-scan that answers it (`resyncDropInDir`)
+
+When more events arrive than the inotify queue holds, the kernel drops events: the observations of the service then no
+longer end with the final state of every name, i.e. `Faithful` fails.  The repaired service keeps `seen_files_` - the names
+whose last processing was a load - and on `IN_Q_OVERFLOW` removes the seen names that are gone and loads everything present. -/
+
+/-- the last observation of name `f`, if any -/
+def lastObsOf {α : Type} (f : String) (obs : List (Obs α)) : Option (Obs α) :=
+  obs.reverse.find? (fun o => o.name == f)
+
+/-- `seen_files_` membership: `processDropInAdd` inserts the name (whatever the load gives), `processDropInRemove` erases it -/
+def isSeen {α : Type} (obs : List (Obs α)) (f : String) : Bool :=
+  match lastObsOf f obs with
+  | some (.add _ _) => !isDot f
+  | _ => false
+
+/-- what `resyncDropInDir` looks at, in order: a removal for every seen name (from `seen`) that is not in the directory, then a
+load of every file present (`std::set` iteration = name order) -/
+def resyncObs {α : Type} (seen : List String) (files : List (String × Load α)) : List (Obs α) :=
+  (seen.filter fun f => !(files.any fun p => p.1 == f)).map Obs.rem ++ obsOfFiles files
+
 /-! ## executable helpers for the driver -/
 
 /-- project the engine's drop-ins to what one base ruleset shows: `targets u` lists the base ruleset of
